@@ -38,6 +38,14 @@ pub fn eval(op: &str, a: &[&str]) -> Option<String> {
             }).ok()?.join();
             Some(match r { Ok(Some(s)) => s, Ok(None) => "(panic)".into(), Err(_) => "(panic)".into() })
         }
+        "p.c06.untyped.smallstack" => {
+            let args: Vec<String> = a.iter().map(|s| s.to_string()).collect();
+            let r = std::thread::Builder::new().stack_size(256 * 1024).spawn(move || {
+                let v: Vec<&str> = args.iter().map(|s| s.as_str()).collect();
+                std::panic::catch_unwind(std::panic::AssertUnwindSafe(|| eval("p.c06.untyped", &v))).ok().flatten()
+            }).ok()?.join();
+            Some(match r { Ok(Some(s)) => s, _ => "(panic)".into() })
+        }
         "p.c06.untyped" => {
             // IDLArgs::from_bytes* under the same configurations
             let b = sx::unhex(a[0]);
@@ -46,6 +54,21 @@ pub fn eval(op: &str, a: &[&str]) -> Option<String> {
             let _ = candid::IDLArgs::from_bytes_with_config(&b, &cfg);
             let _ = candid::IDLArgs::from_bytes_with_types_with_config(&b, &candid::TypeEnv::new(), &[candid::types::TypeInner::Reserved.into()], &cfg);
             Some("ok".into())
+        }
+        "p.c08.bounded" => {
+            // a[0] bounded vector type, a[1] message of a vector: native decoding accepts it exactly when it is within the limits
+            let b = sx::unhex(a[1]);
+            let xs = match candid::IDLArgs::from_bytes(&b) { Ok(v) if v.args.len() == 1 => match V::from_idl(&v.args[0]) { V::Vec(xs) => xs, _ => return Some("not-a-vector".into()) }, _ => return Some("untyped-decode-failed".into()) };
+            // data_size: u64 = 8; Vec<u8> = size_of::<Vec<u8>>() (24) + length
+            let size = |x: &V| match x { V::Vec(b) => 24 + b.len(), _ => 8 };
+            let total: usize = xs.iter().map(size).sum();
+            let within = match a[0] {
+                "BV3" => xs.len() <= 3, "BVT" => total <= 100, "BVU" => total <= 16, "BVE" => xs.iter().all(|x| size(x) <= 30),
+                _ => return None,
+            };
+            let native = native::dispatch(a[0], "c08.native", &["-", "-", a[1]]).unwrap_or_default();
+            let ok = native.starts_with("(ok");
+            Some(if ok == within { "ok".into() } else { format!("FAIL {} elements, total data size {}: within the limits = {}, native decoding = {}", xs.len(), total, within, native) })
         }
         "p.c06.alloc" => {
             // a[0] type, a[1] message, a[2] decoding quota: bytes allocated while decoding stay below a constant + a multiple of
@@ -60,8 +83,17 @@ pub fn eval(op: &str, a: &[&str]) -> Option<String> {
         _ => {
             if a.is_empty() { return None; }
             let tn = a[0].replace('~', " ");
-            if let Some(r) = native::dispatch(&tn, op, &a[1..]) { return Some(r); }
-            native::borrowed(&tn, op, &a[1..])
+            // every native operation runs twice: on this thread (whose type memo has seen whatever ran before) and on a fresh thread
+            // (empty memo, so that type derivation starts at this very type); the two answers must be the same
+            let here = native::dispatch(&tn, op, &a[1..]).or_else(|| native::borrowed(&tn, op, &a[1..]))?;
+            if op == "p.c06.fuzz" || op == "p.c07.native" || op == "p.c07.api" { return Some(here); }
+            let (tn2, op2, rest): (String, String, Vec<String>) = (tn.clone(), op.to_string(), a[1..].iter().map(|s| s.to_string()).collect());
+            let fresh = std::thread::spawn(move || { let v: Vec<&str> = rest.iter().map(|s| s.as_str()).collect(); native::dispatch(&tn2, &op2, &v).or_else(|| native::borrowed(&tn2, &op2, &v)) }).join();
+            match fresh {
+                Ok(Some(f)) if f == here => Some(here),
+                Ok(Some(f)) => Some(format!("(history-dependent here: {} fresh-thread: {})", here, f)),
+                _ => Some(format!("(history-dependent here: {} fresh-thread: panic)", here)),
+            }
         }
     }
 }
@@ -137,6 +169,7 @@ fn fit(name: &str, v: &V) -> V {
         "BV3" => match &v { V::Vec(xs) => V::Vec(xs.iter().take(3).cloned().collect()), _ => v },
         "BVT" => match &v { V::Vec(xs) => { let mut tot = 0usize; let mut ys = vec![]; for x in xs { if let V::Vec(b) = x { if tot + 24 + b.len() > 100 { break; } tot += 24 + b.len(); } ys.push(x.clone()); } V::Vec(ys) } _ => v },
         "BVE" => match &v { V::Vec(xs) => V::Vec(xs.iter().map(|x| match x { V::Vec(b) => V::Vec(b.iter().take(6).cloned().collect()), _ => x.clone() }).collect()), _ => v },
+        "BVU" => match &v { V::Vec(xs) => V::Vec(xs.iter().take(2).cloned().collect()), _ => v },
         "Nested" => match &v { V::Rec(fs) => V::Rec(fs.iter().map(|(i, x)| if *i == candid::idl_hash("a") { (*i, resize(x, 3, V::NatN(16, 1))) } else { (*i, x.clone()) }).collect()), _ => v },
         _ => v,
     }
@@ -247,6 +280,21 @@ pub fn generate(prop: &str, thorough: bool, r: &mut Rng, em: &mut Emit) {
                     crate::val::NONEMPTY_VECS.store(false, std::sync::atomic::Ordering::Relaxed);
                 } }
             }
+            // bounded vectors: lengths and data sizes at, just below and just above every limit
+            for n in 0..7usize {
+                let m = message(&vec![], &[T::vec(T::p("nat64"))], &[V::Vec((0..n).map(|i| V::NatN(64, i as u64)).collect())], 0);
+                em.case_nt("p.c08.bounded", &["BV3".into(), sx::hex(&m)], true);
+                em.case_nt("p.c08.bounded", &["BVU".into(), sx::hex(&m)], true);
+                for len in [0usize, 1, 5, 6, 7, 30] {
+                    let m = message(&vec![], &[T::vec(T::vec(T::p("nat8")))], &[V::Vec((0..n).map(|_| V::Vec((0..len).map(|k| V::NatN(8, k as u64)).collect())).collect())], 0);
+                    em.case_nt("p.c08.bounded", &["BVE".into(), sx::hex(&m)], true);
+                    em.case_nt("p.c08.bounded", &["BVT".into(), sx::hex(&m)], true);
+                }
+            }
+            for lens in [vec![1usize, 1, 1, 1], vec![1, 1, 1, 2], vec![0, 0, 0, 4], vec![76], vec![77], vec![26, 26], vec![26, 27], vec![52], vec![0, 0, 0, 0], vec![0, 0, 0, 0, 0]] {
+                let m = message(&vec![], &[T::vec(T::vec(T::p("nat8")))], &[V::Vec(lens.iter().map(|l| V::Vec((0..*l).map(|k| V::NatN(8, k as u64 % 256)).collect())).collect())], 0);
+                em.case_nt("p.c08.bounded", &["BVT".into(), sx::hex(&m)], true);
+            }
             for name in BORROWED {
                 let t = native::borrowed_type(name);
                 for _ in 0..(6 * scale) {
@@ -277,6 +325,27 @@ pub fn generate(prop: &str, thorough: bool, r: &mut Rng, em: &mut Emit) {
             inputs.push(h("4449444c 01 6d 71 01 00 ffffffffffffffff7f"));
             inputs.push(h("4449444c 00 01 7d 808080808080808080808080808080808080808001"));
             inputs.push(h("4449444c 00 01 7c ffffffffffffffffffffffffffffffffffffff7f"));
+            // lengths of ONE text / blob / method name near 2^64 (position + length overflows): safe to decode without a quota
+            let mut safe: Vec<Vec<u8>> = vec![];
+            for len in ["ffffffffffffffffff01", "feffffffffffffffff01", "f0ffffffffffffffff01", "ffffffffffffffff7f", "80808080808080808001", "ffffffffffffffffff00"] {
+                safe.push(h(&format!("4449444c 00 01 71 {}", len)));
+                safe.push(h(&format!("4449444c 00 01 71 {} 6869", len)));
+                safe.push(h(&format!("4449444c 01 6d 7b 01 00 {}", len)));
+                safe.push(h(&format!("4449444c 00 02 71 7d {} 05", len)));
+                safe.push(h(&format!("4449444c 01 6a 00 00 00 01 00 01 01 00 {}", len)));
+                safe.push(h(&format!("4449444c 01 6e 71 01 00 01 {}", len)));
+            }
+            // long chains in the TYPE TABLE: table_i = record { 0 : table_(i+1) } ... record {}   and   opt / vec chains
+            for n in [100usize, 1000, 4000, 9990] {
+                for (code, tail) in [(0x6cu8, vec![0x6cu8, 0x00]), (0x6e, vec![0x6e, 0x7f]), (0x6d, vec![0x6d, 0x7f])] {
+                    let mut b = b"DIDL".to_vec(); crate::val::leb(n as u128, &mut b);
+                    for i in 0..n - 1 { b.push(code); if code == 0x6c { b.push(1); b.push(0); } crate::val::sleb((i + 1) as i128, &mut b); }   // (type references are SLEB128)
+                    b.extend(&tail);
+                    b.push(1); b.push(0);
+                    b.push(0);                       // opt chain: null; vec chain: empty; record chain: no bytes needed (one spare byte)
+                    safe.push(b);
+                }
+            }
             for depth in [50usize, 500, 5000, 40000] {
                 let mut b = b"DIDL".to_vec(); b.push(1); b.push(0x6e); b.push(0); b.push(1); b.push(0); b.extend(std::iter::repeat(1u8).take(depth)); b.push(0);
                 inputs.push(b);                                                        // type O = opt O; value some(some(...))
@@ -303,6 +372,19 @@ pub fn generate(prop: &str, thorough: bool, r: &mut Rng, em: &mut Emit) {
                 }
                 // the quota laws on native decoding of the valid message
                 em.case_nt("p.c07.native", &[tn.clone(), sx::hex(m)], true);
+            }
+            for b in &safe {
+                let hx = sx::hex(b);
+                for name in ["String", "Vec<u8>", "ByteBuf", "Opt<String>", "Reserved", "Nat", "FnRef", "Pair", "unit", "Opt<List>"] {
+                    for (qd, qs) in [("-", "-"), ("100000", "10000")] {
+                        em.case_nt("p.c06.fuzz", &[tn_arg(name), hx.clone(), qd.into(), qs.into(), "0".into()], true);
+                        em.case_nt("p.c06.smallstack", &[tn_arg(name), hx.clone(), qd.into(), qs.into(), "1".into()], true);
+                    }
+                }
+                for name in ["&[u8]", "&str"] { em.case_nt("p.c06.fuzz", &[tn_arg(name), hx.clone()], true); }
+                em.case_nt("p.c06.untyped", &[hx.clone(), "-".into(), "-".into(), "1".into()], true);
+                em.case_nt("p.c06.untyped.smallstack", &[hx.clone(), "-".into(), "-".into(), "0".into()], true);
+                em.stat("input.length-near-2^64-or-long-type-chain");
             }
             for b in &inputs {
                 let hx = sx::hex(b);
